@@ -39,13 +39,17 @@ def enumerate_states(tier, seed):
             if tier == "quick" and m == 1 and f not in (0, seed % n_off):
                 continue
             states.append({"t": t, "s": s, "o": o, "f": f, "m": m})
+        if tier == "thorough":
+            # dense family: 672 further orientations (cube rotations composed with tiny .. nearly-quarter turns)
+            for s, o, f, m in itertools.product(range(ns), range(n_ori, len(sc.ALL_ROTS)), (0, 2), (0, 1)):
+                states.append({"t": t, "s": s, "o": o, "f": f, "m": m})
     for fac in RB_FACTORIES:
         for pi, p in enumerate(RB_POSES):
             for variant in range(2 if tier == "quick" else 3):
                 states.append({"rb": fac, "pose": pi, "variant": variant})
     meta = {"bound_completed": ("full product type x size x 32 orientations x 4 offsets (margin: %s) + 6 rigid-body "
                                 "factories x 8 poses x %d parameter variants" %
-                                ("all" if tier == "thorough" else "offset 0 and seed slice", 2 if tier == "quick" else 3)),
+                                ("all; + dense family type x size x 672 orientations x 2 offsets x margin" if tier == "thorough" else "offset 0 and seed slice", 2 if tier == "quick" else 3)),
             "exhaustive": True}
     return states, meta
 
@@ -55,7 +59,7 @@ def _viol(kind, entry, cls, detail):
 
 
 def _ori_class(o):
-    return "cube" if o < sc.N_CUBE else "generic" if o < sc.N_GENERIC_END else "near_aligned"
+    return "cube" if o < sc.N_CUBE else "generic" if o < sc.N_GENERIC_END else "near_aligned" if o < len(sc.ROTS) else "dense"
 
 
 def _pinned_ellipsoid_extent(T, radii, margin):
